@@ -14,7 +14,7 @@ There is no transitivity constructor: passes are chained at the level of program
 -/
 namespace DarkluaModel.Sem.Heap
 
-inductive HR (cx : Cx) : List String → Node → Node → List String → Prop
+inductive HR (cx : Cx) : List DName → Node → Node → List DName → Prop
   -- exact steps
   | stepE {D a m b} : EqE a m → HR cx D (.e m) (.e b) D → HR cx D (.e a) (.e b) D
   | stepT {D a m b} : EqT a m → HR cx D (.t m) (.t b) D → HR cx D (.t a) (.t b) D
@@ -30,9 +30,11 @@ inductive HR (cx : Cx) : List String → Node → Node → List String → Prop
   | genB {D a b D'} : (∀ Q, QRefl cx Q → SoundB Q cx D a b D') → HR cx D (.b a) (.b b) D'
   | genRep {D a x b y} : (∀ Q, QRefl cx Q → SoundRep Q cx D a x b y) → HR cx D (.rep a x) (.rep b y) D
   -- a pure `local` declaration present on one side only (its names become dead)
-  | dropLocal {D kind ns vs rest rest' D'} : TotalPureEs vs → HR cx (ns.map TName.name ++ D) (.ss rest) (.ss rest') D' →
+  | dropLocal {D kind ns vs rest rest' D'} : TotalPureEs vs → (∀ n ∈ ns.map TName.name, DName.wat n ∉ D) →
+      HR cx (refNames ns ++ D) (.ss rest) (.ss rest') D' →
       HR cx D (.ss (.localAssign kind ns vs :: rest)) (.ss rest') D'
-  | addLocal {D kind ns vs rest rest' D'} : TotalPureEs vs → HR cx (ns.map TName.name ++ D) (.ss rest) (.ss rest') D' →
+  | addLocal {D kind ns vs rest rest' D'} : TotalPureEs vs → (∀ n ∈ ns.map TName.name, DName.wat n ∉ D) →
+      HR cx (refNames ns ++ D) (.ss rest) (.ss rest') D' →
       HR cx D (.ss rest) (.ss (.localAssign kind ns vs :: rest')) D'
   -- expressions
   | paren {D x x'} : HR cx D (.e x) (.e x') D → HR cx D (.e (.paren x)) (.e (.paren x')) D
@@ -80,7 +82,7 @@ inductive HR (cx : Cx) : List String → Node → Node → List String → Prop
   | tNonLv {D x x'} : x.isLv = false → x'.isLv = false → HR cx D (.t x) (.t x') D
   -- function bodies
   | fnBody {D ps ps' v vt vt' r r' g g' a a' b b' D'} : ps.map TName.name = ps'.map TName.name →
-      HR cx D (.b b) (.b b') D' → HR cx D (.f (.mk ps v vt r g a b)) (.f (.mk ps' v vt' r' g' a' b')) D
+      (∀ n ∈ ps'.map TName.name, DName.wat n ∉ D) → HR cx D (.b b) (.b b') D' → HR cx D (.f (.mk ps v vt r g a b)) (.f (.mk ps' v vt' r' g' a' b')) D
   -- statements
   | assign {D ts ts' vs vs'} : HR cx D (.ts ts) (.ts ts') D → HR cx D (.es vs) (.es vs') D →
       HR cx D (.s (.assign ts vs)) (.s (.assign ts' vs')) D
@@ -88,21 +90,24 @@ inductive HR (cx : Cx) : List String → Node → Node → List String → Prop
       HR cx D (.s (.cassign op t v)) (.s (.cassign op t' v')) D
   | callStmt {D c c'} : HR cx D (.e c) (.e c') D → HR cx D (.s (.callStmt c)) (.s (.callStmt c')) D
   | doBlock {D b b' D'} : HR cx D (.b b) (.b b') D' → HR cx D (.s (.doBlock b)) (.s (.doBlock b')) D
-  | function {D name m f f'} : (∀ r, name.head? = some r → r ∉ D) → HR cx D (.f (addSelf m f)) (.f (addSelf m f')) D →
+  | function {D name m f f'} : (∀ r, name.head? = some r → DName.ref r ∉ D ∧ DName.wat r ∉ D) → HR cx D (.f (addSelf m f)) (.f (addSelf m f')) D →
       HR cx D (.s (.function name m f)) (.s (.function name m f')) D
-  | gfor {D ns ns' vs vs' b b' D'} : ns.map TName.name = ns'.map TName.name → HR cx D (.es vs) (.es vs') D →
+  | gfor {D ns ns' vs vs' b b' D'} : ns.map TName.name = ns'.map TName.name →
+      (∀ n ∈ ns'.map TName.name, DName.wat n ∉ D) → HR cx D (.es vs) (.es vs') D →
       HR cx D (.b b) (.b b') D' → HR cx D (.s (.gfor ns vs b)) (.s (.gfor ns' vs' b')) D
-  | nforNone {D n n' a a' b b' body body' D'} : n.name = n'.name → HR cx D (.e a) (.e a') D → HR cx D (.e b) (.e b') D →
+  | nforNone {D n n' a a' b b' body body' D'} : n.name = n'.name → DName.wat n'.name ∉ D → HR cx D (.e a) (.e a') D → HR cx D (.e b) (.e b') D →
       HR cx D (.b body) (.b body') D' → HR cx D (.s (.nfor n a b none body)) (.s (.nfor n' a' b' none body')) D
-  | nforSome {D n n' a a' b b' st st' body body' D'} : n.name = n'.name → HR cx D (.e a) (.e a') D →
+  | nforSome {D n n' a a' b b' st st' body body' D'} : n.name = n'.name → DName.wat n'.name ∉ D →
+      HR cx D (.e a) (.e a') D →
       HR cx D (.e b) (.e b') D → HR cx D (.e st) (.e st') D → HR cx D (.b body) (.b body') D' →
       HR cx D (.s (.nfor n a b (some st) body)) (.s (.nfor n' a' b' (some st') body')) D
   | ifsNone {D brs brs'} : HR cx D (.branches brs) (.branches brs') D → HR cx D (.s (.ifs brs none)) (.s (.ifs brs' none)) D
   | ifsSome {D brs brs' b b' D'} : HR cx D (.branches brs) (.branches brs') D → HR cx D (.b b) (.b b') D' →
       HR cx D (.s (.ifs brs (some b))) (.s (.ifs brs' (some b'))) D
-  | localAssign {D kind ns ns' vs vs'} : ns.map TName.name = ns'.map TName.name → HR cx D (.es vs) (.es vs') D →
+  | localAssign {D kind ns ns' vs vs'} : ns.map TName.name = ns'.map TName.name →
+      (∀ n ∈ ns'.map TName.name, DName.wat n ∉ D) → HR cx D (.es vs) (.es vs') D →
       HR cx D (.s (.localAssign kind ns vs)) (.s (.localAssign kind ns' vs')) D
-  | localFn {D kind name f f'} : HR cx D (.f f) (.f f') D →
+  | localFn {D kind name f f'} : DName.wat name ∉ D → HR cx D (.f f) (.f f') D →
       HR cx D (.s (.localFn kind name f)) (.s (.localFn kind name f')) D
   | rep {D b b' c c' D'} : HR cx D (.b b) (.b b') D' → HR cx D' (.e c) (.e c') D' → HR cx D (.rep b c) (.rep b' c') D
   | repeat_ {D b b' c c'} : HR cx D (.rep b c) (.rep b' c') D → HR cx D (.s (.repeat_ b c)) (.s (.repeat_ b' c')) D
